@@ -81,6 +81,10 @@ CHECKS = {
         technique='property-based differential testing of generated programs: diff -> emitted fiddler (exec) versus apply_diff, over generated and template diffs and all four option points',
         text='Diffs come from build_diff over the C10 pair generator and from two parametrised hand-assembled templates (reference into a replaced part of old through the same or an aliased path; new shared values referencing each other and old); each diff is rendered with both naming modes and with/without old, the module must compile, and fiddler(copy of old) must have the canonical form apply_diff produces. Diffs on which apply_diff itself fails are skipped (C10 owns them). Two code-generation limitations (tags on value-less arguments of created Buildables; positional arguments in created Buildables) are listed known findings.',
         note='Trusted: diffing.apply_diff as the reference (its own correctness is judged by C10), harness/canon.py, exec of the emitted code.'),
+    'C19': dict(
+        technique='schedule-space exploration with a harness-owned deterministic scheduler (sys.monitoring LINE events on real threads): generated thread programs x generated pre-emption schedules plus systematic single-pre-emption sweeps; differential oracle against solo runs',
+        text='2-3 real threads run programs from a vocabulary (nested build, edits inside nested suspend_tracking, tag edits, deepcopy/==, JSON round trip, first-time Config of callables shared by the threads, failing build with scenario-local exception classes, select/set) on disjoint configurations, serialised by a scheduler that switches threads only at generated (thread, own step) points inside fiddle/_src, optionally snapped to the modules that own cross-thread state; in addition every k-th (thorough: every) step of the first thread of fixed two-thread scenarios is used as a single pre-emption. Each thread must return exactly what it returns alone, sequence ids must be unique across threads and increasing per parameter.',
+        note='Trusted: harness/sched.py (baton scheduler), CPython GIL model with switches between source lines; C-level atomic operations are not split.'),
 }
 
 PENDING = {}
